@@ -14,7 +14,7 @@ from .core import Violation, OutOfDomain, HarnessError
 def gen_replacement(rng, els, P, mode=None):
     """Replacement pattern in the frame of the search pattern.  Returns dict(elements, positions, charges, groups)."""
     n = len(P)
-    mode = mode or rng.choice(["empty", "smaller", "equal", "equal_subst", "larger", "larger", "disjoint", "identity"])
+    mode = mode or rng.choice(["empty", "smaller", "equal", "equal_subst", "larger", "larger", "disjoint", "identity", "relaxed"])
     P = np.asarray(P, float)
     rel, rpos = [], []
     if mode == "empty":
@@ -30,6 +30,11 @@ def gen_replacement(rng, els, P, mode=None):
         for i in keep:
             rel.append(els[i])
             rpos.append(list(P[i]))
+        if mode == "relaxed" and rel:
+            # a slightly relaxed copy: some atoms moved by 0.001-0.09 A (NOT the same coordinates: they are replaced)
+            for j in rng.sample(range(len(rel)), rng.randint(1, len(rel))):
+                d = np.array([rng.gauss(0, 1) for _ in range(3)])
+                rpos[j] = list(np.array(rpos[j]) + d / np.linalg.norm(d) * 10 ** rng.uniform(-3, -1.05))
         if mode == "equal_subst" and rel:
             j = rng.randrange(len(rel))
             rel[j] = rng.choice([e for e in geom.ELEMENT_POOL[:8] if e != rel[j]])
@@ -271,3 +276,137 @@ def overlapping(sel):
                 return True
         seen.update(m)
     return False
+
+
+# ---------------------------------------------------------------------------------------------------------------
+# placement oracle (C05; also run by C04/C08 on every replaced match)
+
+def _nearest_image(x, target, cell):
+    f = geom.frac(np.asarray(x) - np.asarray(target), cell)
+    f0 = f - np.round(f)
+    best, bd = None, np.inf
+    for s in geom.image_offsets(1):
+        v = (f0 + s) @ cell
+        d = np.linalg.norm(v)
+        if d < bd:
+            bd, best = d, v
+    return np.asarray(target) + best, bd
+
+
+def placement_oracle(ctx, spec, structure, run, acc, prefix="c05"):
+    """Joint rigid-image check per replaced match; returns number of inserted atoms checked."""
+    cell = np.array(spec["cell"], float)
+    res = run.result
+    rpos = np.array(res.positions, float).reshape(-1, 3)
+    rel = list(res.elements)
+    Ps = np.array(spec["pattern"]["positions"], float).reshape(-1, 3)
+    Pr = np.array(spec["replace"]["positions"], float).reshape(-1, 3)
+    smap = acc["smap"]
+    only = [r for r in range(len(Pr)) if r not in smap]
+    new = list(acc["new"])
+    # every inserted atom inside the cell
+    if new:
+        f = geom.frac(rpos[new], cell)
+        if f.min() < -1e-7 or f.max() > 1 + 1e-7:
+            j = new[int(np.argmax(np.max(np.abs(f - 0.5), axis=1)))]
+            raise Violation("%s:inserted-atom-outside-cell" % prefix, "inserted atom %d (%s) has fractional coordinates %s" % (j, rel[j], geom.frac(rpos[j], cell).tolist()), site="replace")
+    if not only:
+        return 0
+    K = geom.amplification_K(Ps, spec["hints"])
+    Kj = geom.amplification_K(Ps, spec["hints"], extra=Pr[only])
+    eps = max([p["eps"] or 0.0 for p in spec["planted"] if p["kind"] == "copy"] + [0.0])
+    reach = float(np.max(np.linalg.norm(np.vstack([Pr, Ps]) - Ps[0], axis=1))) if len(Ps) else 0.0
+    checked = 0
+    pool = set(new)
+    sel_idx = run.selected
+    for mi, si in enumerate(sel_idx):
+        X = np.asarray(run.found[1][si], float).reshape(-1, 3)     # unwrapped matched positions in pattern order
+        # is this match a clean occurrence (within the planted noise)?  accidental matches near the tolerance get the
+        # generic tolerance-proportional bound instead
+        if len(Ps) > 1:
+            _, _, dev0 = geom.kabsch(Ps, X)
+            e_m = max(eps, float(dev0.max()))
+        else:
+            e_m = 0.0
+        if e_m * K > spec["atol"]:
+            ctx.count("matches_outside_certified_margin")
+            continue
+        bound = 3.0 * (Kj if math.isfinite(Kj) else K) * e_m * math.sqrt(len(Ps) + len(only)) + 1e-6 * (1.0 + reach)
+        # candidate frames: the rotation the search reported for this match (observed at the tap; verified below to be a
+        # genuine rigid fit of the matched atoms) and the independent best fit of the search atoms
+        frames = []
+        try:
+            frames.append(("reported", np.asarray(run.found[2][si].as_matrix(), float)))
+        except Exception:
+            pass
+        collinear = len(Ps) < 3 or np.linalg.matrix_rank(Ps - Ps.mean(axis=0), tol=1e-6) < 2
+        if len(Ps) > 1 and not collinear:
+            frames.append(("kabsch", geom.kabsch(Ps, X)[0]))
+        if len(Ps) == 1 and not frames:
+            frames.append(("identity", np.eye(3)))
+        if not frames:
+            ctx.count("frame_not_observable")
+            continue
+        ok = False
+        tried = []
+        Y = None
+        for name, R in frames:
+            t = (X - Ps @ R.T).mean(axis=0)
+            dsearch = float(np.linalg.norm(Ps @ R.T + t - X, axis=1).max())
+            if dsearch > bound:
+                tried.append(dsearch)
+                continue
+            free = set(pool)
+            assign, worst, Ys = [], 0.0, []
+            for r in only:
+                y = Pr[r] @ R.T + t
+                best, bd, by = None, np.inf, None
+                for j in free:
+                    if rel[j] != spec["replace"]["elements"][r]:
+                        continue
+                    yi, d = _nearest_image(rpos[j], y, cell)
+                    if d < bd:
+                        bd, best, by = d, j, yi
+                if best is None:
+                    worst = np.inf
+                    break
+                assign.append(best)
+                Ys.append(by)
+                free.discard(best)
+                worst = max(worst, bd)
+            tried.append(float(worst))
+            if worst <= bound:
+                ok = True
+                Y = np.array(Ys)
+                for j in assign:
+                    pool.discard(j)
+                break
+        if not ok:
+            raise Violation("%s:inserted-atoms-not-in-pattern-frame" % prefix,
+                            "match %s: inserted atoms are not where the rigid motion of the matched search pattern puts the replacement coordinates (modulo lattice): deviation %.3g > bound %.3g (atol %g, planted noise %.3g)"
+                            % (list(run.found[0][si]), min(tried) if tried else float("nan"), bound, spec["atol"], e_m), site="replace")
+        checked += len(only)
+        # reach probe: did this match need wrapping of an inserted atom?
+        if np.abs(Y - rpos[assign]).max() > 1e-6:
+            ctx.count("inserted_atoms_needed_wrapping")
+    return checked
+
+
+def multiset_mod_lattice_equal(ela, pa, elb, pb, cell, tol):
+    if sorted(ela) != sorted(elb):
+        return False, "element multisets differ"
+    used = set()
+    fb = geom.frac(pb, cell)
+    inv = np.linalg.inv(cell)
+    for i in range(len(ela)):
+        fa = np.asarray(pa[i]) @ inv
+        d = fb - fa
+        d -= np.round(d)
+        dist = np.linalg.norm(d @ cell, axis=1)
+        cands = [j for j in np.argsort(dist)[:6] if j not in used and elb[j] == ela[i] and dist[j] <= tol]
+        if not cands:
+            return False, "atom %d (%s at %s) has no counterpart within %.3g" % (i, ela[i], np.asarray(pa[i]).tolist(), tol)
+        used.add(cands[0])
+    return True, ""
+
+
